@@ -71,3 +71,10 @@ CLAIMED['C15'] = (
     'Call sequences and shapes are enumerated bounds; floats read as reals; half-cell ties excluded; after each proof the stored coordinates are replaced by the proved closed form (cut) so terms stay shallow; z3.',
     'DESIGN.md §3 C15')
 NOT_APPLICABLE.pop('C15', None)
+CLAIMED['C06'] = (
+    'symbolic execution of mean_squared_displacement / distances_from_base_position / tracer_diffusivity on displacement-form trajectories; polynomial identities decided by z3',
+    'For every displacement-form trajectory of the bounded shapes on the pool lattices: each MSD entry equals the time-origin average of squared unwrapped Cartesian displacements, '
+    'distances equal Cartesian lengths, tracer diffusivity equals its formula for dimensions 1-3 (z3 unsat on pc AND NOT identity).',
+    'np.fft by the Wiener-Khinchin contract (exact over the reals); floats read as reals, physical constants/time step exact rationals; metric tensor = M M^T; z3.',
+    'DESIGN.md §3 C06')
+NOT_APPLICABLE.pop('C06', None)
